@@ -21,8 +21,12 @@ try:
     report["demo_original_exit"] = r0.returncode
     ap = sh(f"git -C {wt} apply {src}/patch.diff")
     report["patch_applies"] = ap.returncode == 0
-    t = sh(f"cd {wt} && /venv/bin/python -m pytest -q -p no:cacheprovider --timeout=900 --color=no --continue-on-collection-errors 2>&1 | tail -5")
-    m = re.search(r"(\d+) passed", t.stdout)
+    for _try in range(3):
+        t = sh(f"cd {wt} && /venv/bin/python -m pytest -q -p no:cacheprovider --timeout=900 --color=no --continue-on-collection-errors 2>&1 | tail -5")
+        m = re.search(r"(\d+) passed", t.stdout)
+        if m:
+            break
+        report["tests_tail"] = t.stdout[-600:]
     report["tests_passed_with_patch"] = int(m.group(1)) if m else None
     r1 = sh(f"cd {wt} && {env} timeout 300 /venv/bin/python {src}/demo.py")
     report["demo_patched_exit"] = r1.returncode
